@@ -173,6 +173,10 @@ pub fn run(rep: &mut Report) {
                                     let rc = Rc { legacy, slack, order: order.clone(), gap, unknown, raw_mask, hash_len, unpacked: (slack + gap) % 2 == 1 };
                                     let mut params = rq.params.clone();
                                     params.chunk_hash_length = hash_len as u32;
+                                    // a recorded minimum chunk size below the window size is valid: the reader takes both as recorded
+                                    if slack == 7 && params.chunking_algorithm != 2 {
+                                        params.min_chunk_size = 1;
+                                    }
                                     let built = match codec::build_archive(&source, &cuts, &recipe(&rc, nu, &params, comp)) {
                                         Ok(b) => b,
                                         Err(e) if e.contains("collide") => {
